@@ -22,6 +22,11 @@ def wallet_pass(prop, tier, seed, scratch, nsim):
     rep = vlib.load_report(report)
     if rep["traces"] != sim["ntraces"]:
         raise vlib.Broken("wallet-level pass replayed %d of %d behaviours" % (rep["traces"], sim["ntraces"]))
+    fields = {"C01": ["spendable", "bal", "acctBal"], "C13": ["st", "sends.0.status"]}[prop]
+    rep["binding_selftest"] = vlib.binding_selftest(
+        scratch, drv, lambda i, o: ["-in", i, "-out", o, "-spec", "spend", "-prop", prop, "-seed", seed, "-workers", vlib.NCPU],
+        simtr, fields, tag="wl-selftest", n=48,
+        where=lambda tr: any(x["op"] in ("Send", "SendExplicit") and x["ret"] == "ok" for x in tr["steps"]))
     return rep
 
 
@@ -65,6 +70,15 @@ def run(prop, tier, seed, scratch, replay=None):
     rep2 = vlib.load_report(report2)
     res.add_report(rep)
     res.add_report(rep2)
+    # binding self-test: each compared part of the expectation, perturbed, must be noticed
+    if prop == "C20":
+        fields = ["spendable", "bal", "acctBal", "sends.0.status", "leased"]
+        where = lambda tr: any(x["op"] in ("Send", "SendExplicit") and x["ret"] == "ok" for x in tr["steps"])
+    else:
+        fields = ["step.ret"]
+        where = lambda tr: tr["steps"] and tr["steps"][-1]["op"] in ("Send", "SendExplicit", "FundOwn", "SendDup")
+    st = vlib.binding_selftest(scratch, drv, lambda i, o: ["-in", i, "-out", o, "-spec", "spend", "-prop", prop, "-seed", seed, "-workers", vlib.NCPU],
+                               traces, fields, where=where)
     res.coverage = {
         "states": bfs["distinct"], "transitions": bfs["generated"],
         "traces_validated_against_impl": rep["traces"] + rep2["traces"],
@@ -83,6 +97,7 @@ def run(prop, tier, seed, scratch, replay=None):
         "tlc_bfs_wall_s": bfs["wall_s"], "checker_cmd": bfs["cmd"],
     }
     res.coverage["transitions_per_operation"] = cov
+    res.coverage["binding_selftest"] = st
     res.assumptions = [
         "the backend is the scripted chain.Interface of harness/internal/mockchain",
         "request amounts are derived from the prescription (sum of the k largest eligible coins minus a margin of 0.4-0.5 mBTC) so that largest-first selection is determined; fee rate 1000 sat/kvB",
